@@ -29,7 +29,7 @@ FilterErr(k, fi) == LET f == Filters[fi] IN
 Entry == [file : 1..3, filt : 1..Len(Filters)]
 VARIABLES sd, done
 \* the configuration is a function of a seed: choice point p of configuration sd takes the value H(sd, p)
-H(seed, p) == LET h0 == ((seed % 65521) * 40503 + 12345) % 65521
+H(seed, p) == LET h0 == ((seed % 65521) * 32003 + 12345) % 65521
                   h1 == (h0 * 75 + 74) % 65537
                   h2 == (h1 + (p % 100003) * 131) % 65537
                   h3 == (h2 * 75 + 74) % 65537
